@@ -201,6 +201,8 @@ type env struct {
 	viols       []Viol
 	reqPar      int
 	bound       int
+	abandon     bool // the scenario is being abandoned with goroutines blocked for good
+	rescued     bool // the scenario closed the stream itself to free a stuck call: what that call returns is not evidence
 }
 
 func (e *env) viol(kind, what string, params map[string]interface{}) {
@@ -668,9 +670,11 @@ func (e *env) consumer(cmds chan cmd, st stream.Stream[int], it iterator.Iterato
 				}
 			}
 			e.mu.Lock()
-			e.results = append(e.results, nextRes{v: v, err: err, ctxDead: c.ctx != nil && c.ctx.Err() != nil})
-			if err == nil {
-				e.yielded++
+			if !e.rescued {
+				e.results = append(e.results, nextRes{v: v, err: err, ctxDead: c.ctx != nil && c.ctx.Err() != nil})
+				if err == nil {
+					e.yielded++
+				}
 			}
 			e.cons = "idle"
 			e.curCtx = nil
@@ -693,6 +697,14 @@ func (e *env) consumer(cmds chan cmd, st stream.Stream[int], it iterator.Iterato
 			// (hence the source) by the time it returns
 			vals, err := stream.Collect(context.Background(), st)
 			e.mu.Lock()
+			if e.rescued {
+				e.cons = "closed"
+				e.mu.Unlock()
+				if e.notify != nil {
+					e.notify <- struct{}{}
+				}
+				continue
+			}
 			for _, v := range vals {
 				e.results = append(e.results, nextRes{v: v})
 				e.yielded++
@@ -715,20 +727,17 @@ func (e *env) consumer(cmds chan cmd, st stream.Stream[int], it iterator.Iterato
 // ---------------------------------------------------------------------------------------------
 // running one scenario
 
-// fatalHook is called inside the bubble when goroutines of the scenario are blocked for good (the
-// bubble cannot be left any more); it records the failure, writes the result and exits.
-var fatalHook func(sc *Scenario, o *Outcome)
-
+// fatal is called inside the bubble when goroutines of the scenario are blocked for good. The caller
+// returns from the bubble function right afterwards; synctest.Test then panics in the goroutine that
+// called it ("deadlock: ... blocked goroutines remain"), runScenario recovers that, the blocked
+// goroutines are abandoned and the harness goes on with the next scenario: everything recorded so far
+// is kept and later scenarios still get their chance to show failures of other kinds. (Until fix3
+// the process exited here, so a scenario that blocked masked every later one.)
 func (e *env) fatal(sc *Scenario, out *Outcome, what string) {
 	out.Fatal = what
 	e.mu.Lock()
-	out.Viols = append(out.Viols, e.viols...)
+	e.abandon = true
 	e.mu.Unlock()
-	if fatalHook != nil {
-		fatalHook(sc, out)
-	}
-	fmt.Println("C14 harness: goroutines blocked for good:", what)
-	os.Exit(1)
 }
 
 type Outcome struct {
@@ -756,6 +765,38 @@ func runScenario(t *testing.T, sc *Scenario, r *vlib.Rand, maxSteps int) *Outcom
 		b = 0 // a negative bufferSize is read as "no buffer"
 	}
 	e.bound = b + e.reqPar + 1
+	stuckBubble, sv := vlib.Try(func() { e.bubble(t, sc, r, maxSteps, out, gmp) })
+	if stuckBubble {
+		if out.Fatal == "" {
+			out.Fatal = fmt.Sprintf("the bubble could not be left: %v; last observation: %s", sv, e.observe())
+		}
+		e.finalMonitors()
+	}
+	out.Viols = append(out.Viols, e.viols...)
+	out.Stats["items"] = len(e.items)
+	out.Stats["calls"] = len(e.calls)
+	out.Stats["maxGauge"] = e.maxGauge
+	out.Stats["maxInFlight"] = e.maxInFlight
+	out.Stats["results"] = len(e.results)
+	for _, c := range e.calls {
+		if c.res.err != nil {
+			out.Stats["failedCalls"]++
+		}
+	}
+	if e.srcFailed != nil {
+		out.Stats["srcFailed"] = 1
+	}
+	for _, r := range e.results {
+		if r.err == errCons {
+			out.Stats["ctxFailedNext"]++
+		}
+	}
+	return out
+}
+
+// bubble runs the scenario inside a synctest bubble. If e.fatal was called, goroutines stay blocked and
+// synctest.Test panics in the caller (recovered by runScenario).
+func (e *env) bubble(t *testing.T, sc *Scenario, r *vlib.Rand, maxSteps int, out *Outcome, gmp int) {
 	synctest.Test(t, func(t *testing.T) {
 		start := time.Now()
 		e.start = start
@@ -805,7 +846,12 @@ func runScenario(t *testing.T, sc *Scenario, r *vlib.Rand, maxSteps int) *Outcom
 		go e.consumer(cmds, st, it, &wg)
 		defer func() {
 			close(cmds)
-			wg.Wait()
+			e.mu.Lock()
+			ab := e.abandon
+			e.mu.Unlock()
+			if !ab {
+				wg.Wait()
+			}
 		}()
 		if sc.Kind == "timed" {
 			e.notify = make(chan struct{}, 1)
@@ -984,27 +1030,6 @@ func runScenario(t *testing.T, sc *Scenario, r *vlib.Rand, maxSteps int) *Outcom
 			e.fatal(sc, out, "the scenario could not be wound down (a call is blocked for good): "+e.observe())
 		}
 	})
-	out.Viols = append(out.Viols, e.viols...)
-	out.Stats["items"] = len(e.items)
-	out.Stats["calls"] = len(e.calls)
-	out.Stats["maxGauge"] = e.maxGauge
-	out.Stats["maxInFlight"] = e.maxInFlight
-	out.Stats["results"] = len(e.results)
-	for _, c := range e.calls {
-		if c.res.err != nil {
-			out.Stats["failedCalls"]++
-		}
-	}
-	if e.srcFailed != nil {
-		out.Stats["srcFailed"] = 1
-	}
-	// reordering: a result arrived for a later item while an earlier one was still running
-	for _, r := range e.results {
-		if r.err == errCons {
-			out.Stats["ctxFailedNext"]++
-		}
-	}
-	return out
 }
 
 // choose picks the next script action among those applicable now.
@@ -1088,6 +1113,7 @@ func (e *env) runTimed(sc *Scenario, cmds chan cmd, out *Outcome, st stream.Stre
 				e.viol("error-silent", what, map[string]interface{}{"ctx": "live", "source_idle": e.srcInCall > 0})
 				e.viol("c08-silence", what, map[string]interface{}{"ctx": "live", "source_idle": e.srcInCall > 0})
 			}
+			e.rescued = true
 			e.mu.Unlock()
 			go st.Close()
 			rescue := time.NewTimer(time.Hour)
@@ -1096,6 +1122,7 @@ func (e *env) runTimed(sc *Scenario, cmds chan cmd, out *Outcome, st stream.Stre
 				rescue.Stop()
 			case <-rescue.C:
 				e.fatal(sc, out, "stream.Collect blocked for good in a timed scenario")
+				return
 			}
 		}
 		time.Sleep(time.Duration(sc.LatMax*50+sc.SrcCloseLat+10) * time.Millisecond)
@@ -1146,6 +1173,9 @@ func (e *env) runTimed(sc *Scenario, cmds chan cmd, out *Outcome, st stream.Stre
 			// here (outside the stream protocol, only to leave the bubble); if that does not help either,
 			// the goroutines are blocked for good.
 			if st != nil {
+				e.mu.Lock()
+				e.rescued = true
+				e.mu.Unlock()
 				go st.Close()
 				rescue := time.NewTimer(time.Hour)
 				select {
@@ -1159,6 +1189,7 @@ func (e *env) runTimed(sc *Scenario, cmds chan cmd, out *Outcome, st stream.Stre
 				}
 			}
 			e.fatal(sc, out, "Next blocked for good in a timed scenario")
+			return
 		}
 		if tm != nil {
 			tm.Stop()
@@ -1188,6 +1219,7 @@ func (e *env) runTimed(sc *Scenario, cmds chan cmd, out *Outcome, st stream.Stre
 			e.viol("close-stuck", "Close did not return within an hour of virtual time", nil)
 			e.mu.Unlock()
 			e.fatal(sc, out, "Close blocked for good in a timed scenario")
+			return
 		}
 		// a call of f starting after Close returned would show up now
 		time.Sleep(time.Duration(sc.LatMax*50+sc.SrcCloseLat+10) * time.Millisecond)
@@ -1366,6 +1398,21 @@ func (ms models) of(sc *Scenario) *vlib.Model {
 	return ms.stream
 }
 
+// Bookkeeping against masking. The harness serves C14 and, through the prefix filters of
+// checks/C08.json / C09.json, the `c08-` / `c09-` clauses: every kind is recorded (and shrunk) on its
+// own, at most kindCap times with different parameters, so that a flood of one kind cannot fill the
+// result's failure list (vlib keeps 50) before a kind of another prefix class shows up; a scenario that
+// blocks for good no longer ends the run (see env.fatal) until maxFatal of them have been abandoned.
+const (
+	kindCap  = 2
+	maxFatal = 12
+)
+
+var (
+	kindSeen = map[string]int{}
+	nFatal   int
+)
+
 func check(t *testing.T, sc *Scenario, r *vlib.Rand, ms models, res *vlib.Result, env vlib.Env) *Outcome {
 	var fork *vlib.Rand
 	if r != nil {
@@ -1375,7 +1422,19 @@ func check(t *testing.T, sc *Scenario, r *vlib.Rand, ms models, res *vlib.Result
 	if sc.Kind == "script" {
 		sc.Steps = o.Applied
 	}
+	if o.Fatal != "" {
+		nFatal++
+		res.Count("scenarios-blocked-for-good")
+		if kindSeen["blocked-for-good"] < kindCap {
+			kindSeen["blocked-for-good"]++
+			res.Fail(vlib.Failure{Source: "monitor", Kind: "blocked-for-good", Params: map[string]interface{}{"variant": sc.Variant, "kind": sc.Kind}, What: o.Fatal, Case: sc})
+		}
+	}
 	for _, v := range o.Viols {
+		if kindSeen[v.Kind] >= kindCap {
+			continue
+		}
+		kindSeen[v.Kind]++
 		small := sc
 		if sc.Kind == "script" && len(sc.Steps) > 1 && o.Fatal == "" {
 			steps := vlib.Shrink(sc.Steps, func(c []Step) bool {
@@ -1467,15 +1526,7 @@ func TestVerif(t *testing.T) {
 		return
 	}
 
-	fatalHook = func(sc *Scenario, o *Outcome) {
-		for _, v := range o.Viols {
-			res.Fail(vlib.Failure{Source: "monitor", Kind: v.Kind, Params: v.Params, What: v.What, Case: sc})
-		}
-		res.Fail(vlib.Failure{Source: "monitor", Kind: "blocked-for-good", Params: map[string]interface{}{"variant": sc.Variant}, What: o.Fatal, Case: sc})
-		res.Write(env.Out)
-		fmt.Println("C14 harness: goroutines blocked for good; result written:", o.Fatal)
-		os.Exit(1)
-	}
+	defer res.Write(env.Out) // also when the run is cut short below
 	for _, f := range vlib.CorpusFiles(env.Corpus, ".json") {
 		b, err := os.ReadFile(f)
 		if err != nil {
@@ -1484,6 +1535,9 @@ func TestVerif(t *testing.T) {
 		var sc Scenario
 		if json.Unmarshal(b, &sc) != nil {
 			t.Fatalf("bad corpus file %s", f)
+		}
+		if nFatal >= maxFatal {
+			break
 		}
 		res.Count("corpus")
 		o := check(t, &sc, nil, ms, res, env)
@@ -1541,6 +1595,9 @@ func TestVerif(t *testing.T) {
 				it.ConsTimeout = 0
 				list = append(list, it)
 				for i := range list {
+					if nFatal >= maxFatal {
+						break
+					}
 					res.Count("sweep")
 					o := check(t, &list[i], nil, ms, res, env)
 					res.Case(list[i].key(), nontrivial(&list[i], o), nil)
@@ -1550,6 +1607,9 @@ func TestVerif(t *testing.T) {
 	}
 	dir := directed()
 	for i := range dir {
+		if nFatal >= maxFatal {
+			break
+		}
 		res.Count("directed")
 		o := check(t, &dir[i], nil, ms, res, env)
 		res.Case(dir[i].key(), nontrivial(&dir[i], o), nil)
@@ -1561,7 +1621,7 @@ func TestVerif(t *testing.T) {
 	if big {
 		maxCases = 300000
 	}
-	for i := 0; i < maxCases && time.Now().Before(deadline); i++ {
+	for i := 0; i < maxCases && time.Now().Before(deadline) && nFatal < maxFatal; i++ {
 		var sc *Scenario
 		var rr *vlib.Rand
 		if i%3 != 2 {
@@ -1617,5 +1677,4 @@ func TestVerif(t *testing.T) {
 		}
 		res.Case(sc.key(), nontrivial(sc, o), sample)
 	}
-	res.Write(env.Out)
 }
